@@ -196,7 +196,7 @@ func c06E2(r *core.R) {
 	}
 	info := m.info
 	isReadFull := func(f *c01Fn, n ast.Node) bool {
-		return c01ContainsCall(n, func(call *ast.CallExpr) bool { return isPkgFunc(callee(info, call), "io", "ReadFull") })
+		return c01ContainsCall(n, func(call *ast.CallExpr) bool { return c06IsBlockRead(info, call) })
 	}
 	sum := c01NewSum(r.P, isReadFull)
 	sitesOf := func(fi *FuncInfo) []c06ReadSite {
@@ -215,7 +215,7 @@ func c06E2(r *core.R) {
 					if !ok {
 						return true
 					}
-					if isPkgFunc(callee(info, call), "io", "ReadFull") {
+					if c06IsBlockRead(info, call) {
 						out = append(out, c06ReadSite{node: n, call: call, direct: true})
 					} else if tf := c01Callee(m.pk, call); tf != nil && sum.May(tf) {
 						out = append(out, c06ReadSite{node: n, call: call, helper: tf})
@@ -356,4 +356,11 @@ func c06E2(r *core.R) {
 	if len(order) == 0 && !unknown {
 		r.Anchor("io.ReadFull calls below " + blockReader.Name())
 	}
+}
+
+// c06IsBlockRead: call is one of the read primitives of package io that fill a buffer and report io.EOF only when no
+// byte at all could be read (io.ErrUnexpectedEOF when the stream ends inside): io.ReadFull, io.ReadAtLeast.
+func c06IsBlockRead(info *types.Info, call *ast.CallExpr) bool {
+	fn := callee(info, call)
+	return isPkgFunc(fn, "io", "ReadFull") || isPkgFunc(fn, "io", "ReadAtLeast")
 }
